@@ -274,11 +274,20 @@ func (t *Transaction) checkIndexes() error {
 	// duplicate among the rows of the transaction can overwrite, and then
 	// remove, the entry that would reveal it. Look for such duplicates by
 	// loading the rows into a scratch cache with the checks on.
-	scratch, err := cache.NewTableCache(t.Model, nil, t.logger)
-	if err != nil {
-		return err
-	}
+	var scratch *cache.TableCache
 	for _, table := range tables {
+		schema := t.Model.Schema.Table(table)
+		if schema == nil || len(schema.Indexes) == 0 || t.Cache.Table(table).Len() < 2 {
+			// nothing that could collide
+			continue
+		}
+		if scratch == nil {
+			var err error
+			scratch, err = cache.NewTableCache(t.Model, nil, t.logger)
+			if err != nil {
+				return err
+			}
+		}
 		for uuid, row := range t.Cache.Table(table).RowsShallow() {
 			if err := scratch.Table(table).Create(uuid, row, true); err != nil {
 				return err
